@@ -3,6 +3,8 @@ package main
 // Exec: runs the REAL code on exactly what the case says.
 //  which=0  (via tree event now tables)                      -> 0 | 1 | (2) constructor error | (3 #panic)
 //  which=1  (via (tree...) (event...) now tables)            -> ((bit...)...) per event | (2)
+//           (via (10 action...) (event...) now tables)       -> action chain, see chain.go
+//  which=0  with (9 #event #source ((#k #v)...)) as the event: one antispam rule over antispam data, see config.go
 //  which=2  (tree|0 #mode invert (cond...) (event...) now tables)  processor.isMatch    -> (bit...) | (2)
 //  which=3  same case, through fd.SetupActions + a real pipeline with a discard action -> (bit...) | (2)
 
@@ -44,7 +46,10 @@ func c14Exec(which int, cs hx.Sx) hx.Sx {
 	it := hx.Items(cs)
 	switch which {
 	case 0:
-		fn, _, err := construct(nodeFromSx(it[1]), int(hx.Int(it[0]))&1)
+		if isAsData(it[2]) {
+			return execAntispam(int(hx.Int(it[0])), nodeFromSx(it[1]), asDataFromSx(it[2]))
+		}
+		fn, _, err := constructVia(nodeFromSx(it[1]), int(hx.Int(it[0]))&^2)
 		if err != nil {
 			return obsReject
 		}
@@ -60,12 +65,15 @@ func c14Exec(which int, cs hx.Sx) hx.Sx {
 		return hx.Bool(res)
 
 	case 1:
-		via := int(hx.Int(it[0])) & 1
+		via := int(hx.Int(it[0])) &^ 2
+		if isChain(it[1]) {
+			return execChain(via, hx.Items(it[1])[1:], hx.Items(it[2]))
+		}
 		var fns []checkFn
 		var pause time.Duration
 		for _, t := range hx.Items(it[1]) {
 			n := nodeFromSx(t)
-			fn, _, err := construct(n, via)
+			fn, _, err := constructVia(n, via)
 			if err != nil {
 				return obsReject
 			}
@@ -139,6 +147,9 @@ func execIsMatch(it []hx.Sx) hx.Sx {
 	var conds pipeline.MatchConditions
 	for _, c := range hx.Items(it[3]) {
 		cd := condFromSx(c)
+		if len(cd.nums) > 0 {
+			panic("c14: a non-string list element exists only in the configuration form (which = 3)")
+		}
 		mc := pipeline.MatchCondition{Field: cd.path, Values: cd.vals}
 		if cd.re != nil {
 			re, err := cfg.CompileRegex("/" + *cd.re + "/")
@@ -184,11 +195,23 @@ func execPipeline(it []hx.Sx) hx.Sx {
 	}
 	conds := hx.Items(it[3])
 	mf := map[string]any{}
-	for _, c := range conds {
+	for i, c := range conds {
 		cd := condFromSx(c)
-		if cd.re != nil {
+		switch {
+		case cd.re != nil:
 			mf[selector(cd.path)] = "/" + *cd.re + "/"
-		} else {
+		case len(cd.nums) > 0:
+			l := []any{}
+			for _, v := range cd.vals {
+				l = append(l, v)
+			}
+			for _, n := range cd.nums {
+				l = append(l, n)
+			}
+			mf[selector(cd.path)] = l
+		case i%2 == 1 && len(cd.vals) == 1 && (cd.vals[0] == "" || cd.vals[0][0] != '/'):
+			mf[selector(cd.path)] = cd.vals[0] // a single value written as a scalar (fd/util.go extractConditions: not a /regexp/)
+		default:
 			mf[selector(cd.path)] = cd.vals
 		}
 	}
